@@ -345,8 +345,7 @@ class Union:
     def __type_order__(self, other):
         if other is Union:
             return Order.LESS
-        handler = getattr(other, "_handler", None)
-        others = handler.types if isinstance(handler, type(self)) else (other,)
+        others = self._parts(other)
         # More general: each part of other is within one of the members
         more = all(
             any(
@@ -358,14 +357,39 @@ class Union:
         less = all(
             typeorder(t, other) in (Order.LESS, Order.SAME) for t in self.types
         )
-        if more and less and others != (other,):
-            return Order.SAME
+        if more and less:
+            # Equivalent: a union still counts as more general than one of
+            # its own members
+            if any(other == t for t in self.types):
+                return Order.MORE
+            elif self._has_member(other, self):
+                return Order.LESS
+            else:
+                return Order.SAME
         elif more:
             return Order.MORE
         elif less:
             return Order.LESS
         else:
             return Order.NONE
+
+    @classmethod
+    def _parts(cls, t):
+        """The members of t, through nested types of the same kind."""
+        handler = getattr(t, "_handler", None)
+        if isinstance(handler, cls):
+            return [p for t2 in handler.types for p in cls._parts(t2)]
+        else:
+            return [t]
+
+    @classmethod
+    def _has_member(cls, t, member):
+        handler = getattr(t, "_handler", None)
+        return isinstance(handler, cls) and any(
+            isinstance(h2 := getattr(t2, "_handler", None), cls)
+            and h2 == member
+            for t2 in handler.types
+        )
 
     def __is_supertype__(self, other):
         return any(subclasscheck(other, t) for t in self.types)
@@ -407,8 +431,7 @@ class Intersection:
     def __type_order__(self, other):
         if other is Intersection:
             return Order.LESS
-        handler = getattr(other, "_handler", None)
-        others = handler.types if isinstance(handler, type(self)) else (other,)
+        others = self._parts(other)
         # More specific: one of the members is within each part of other
         less = all(
             any(
@@ -420,14 +443,39 @@ class Intersection:
         more = all(
             typeorder(t, other) in (Order.MORE, Order.SAME) for t in self.types
         )
-        if more and less and others != (other,):
-            return Order.SAME
+        if more and less:
+            # Equivalent: an intersection still counts as more specific than
+            # one of its own members
+            if any(other == t for t in self.types):
+                return Order.LESS
+            elif self._has_member(other, self):
+                return Order.MORE
+            else:
+                return Order.SAME
         elif less:
             return Order.LESS
         elif more:
             return Order.MORE
         else:
             return Order.NONE
+
+    @classmethod
+    def _parts(cls, t):
+        """The members of t, through nested types of the same kind."""
+        handler = getattr(t, "_handler", None)
+        if isinstance(handler, cls):
+            return [p for t2 in handler.types for p in cls._parts(t2)]
+        else:
+            return [t]
+
+    @classmethod
+    def _has_member(cls, t, member):
+        handler = getattr(t, "_handler", None)
+        return isinstance(handler, cls) and any(
+            isinstance(h2 := getattr(t2, "_handler", None), cls)
+            and h2 == member
+            for t2 in handler.types
+        )
 
     def __is_supertype__(self, other):
         return all(subclasscheck(other, t) for t in self.types)
